@@ -118,6 +118,20 @@ fn near_misses(n: &NameCfg, class: &str, t0: i64) -> Vec<String> {
         }
     }
     match class {
+        // sub-directories that carry the name of a family file which the history never reaches
+        // (an index / a time far away): not log files, whatever they are called
+        "family-named-directory" => {
+            let far: Option<String> = if n.naming.is_numbers() {
+                Some("r90500".to_string())
+            } else {
+                n.naming.ts_fmt().map(|f| {
+                    (crate::ctl::local_from_ns(t0) + chrono::Duration::days(20_000)).format(f).to_string()
+                })
+            };
+            if let Some(far_infix) = far {
+                v.push(format!("{}{sfx}", join(&fixed, &far_infix)));
+            }
+        }
         "too-few-digits" => {
             if n.naming.is_numbers() {
                 for i in ["r1", "r12", "r0001", "r", "r12a45", "rr00001", "R00001"] {
@@ -154,9 +168,10 @@ fn near_misses(n: &NameCfg, class: &str, t0: i64) -> Vec<String> {
             && !name.contains('/')
             && name != "."
             && name != ".."
-            && n.classify(name).is_none()
-            // a foreign ".gz" of a family name would be a twin, not a foreign file
-            && n.classify(name.trim_end_matches(".gz")).is_none()
+            && (class == "family-named-directory"
+                || (n.classify(name).is_none()
+                    // a foreign ".gz" of a family name would be a twin, not a foreign file
+                    && n.classify(name.trim_end_matches(".gz")).is_none()))
     });
     v
 }
@@ -173,6 +188,7 @@ const CLASSES: &[&str] = &[
     "infix-fragment-inside",
     "multibyte",
     "subdirectory",
+    "family-named-directory",
     "too-few-digits",
     "missing-infix",
     "broken-timestamp",
@@ -353,7 +369,7 @@ pub fn run_case(ctx: &mut CaseCtx) -> CaseResult {
     // create the foreign entries
     for (i, f) in foreign.iter().enumerate() {
         let p = poll_dir.join(f);
-        if class == "subdirectory" {
+        if class == "subdirectory" || class == "family-named-directory" {
             let _ = std::fs::create_dir_all(&p);
             let _ = std::fs::write(p.join("inner.log"), b"inner");
         } else {
